@@ -12,6 +12,8 @@ LEVEL = "other"
 
 
 def run(repo, run, tier):
+    from .common import readonly
+    readonly(repo, run, "C08.13", DS, ["OdeSystem.events", "OdeSystem.events_dict"], "the event views of the system: every detected crossing is visible through them at once (no cached snapshot)")
     run.assumptions += ["NOT decided: that Brent's iteration converges on a given steep event function within the iteration cap"]
     dim_rule(repo, run, "C08.1", ["brentsrootvec"], floor=6)
     m = IntegrateModel(repo)
